@@ -22,6 +22,26 @@ import traceback
 from .. import common
 
 
+class CaseTimeout(Exception):
+  """A single case ran past its time budget (raised from a SIGALRM handler in the worker)."""
+
+
+def _alarm(signum, frame):
+  raise CaseTimeout("case exceeded its time budget")
+
+
+def time_limited(seconds, f, *args):
+  """Runs f(*args) under a wall-clock budget (workers are single-threaded processes)."""
+  import signal
+  old = signal.signal(signal.SIGALRM, _alarm)
+  signal.setitimer(signal.ITIMER_REAL, seconds)
+  try:
+    return f(*args)
+  finally:
+    signal.setitimer(signal.ITIMER_REAL, 0)
+    signal.signal(signal.SIGALRM, old)
+
+
 class FnContract(object):
   def __init__(self, name, call, ensures, requires=None, raises=None, classify=None,
                nontrivial=None, show=None):
@@ -67,6 +87,7 @@ def evaluate(contract, args):
 
 
 _REG = {}
+CASE_BUDGET_S = 60
 
 def _worker(task):
   key, w, W, tier, seed, limit_s = task
@@ -80,7 +101,11 @@ def _worker(task):
         out["truncated"] = True
         break
       shown = repr(contract.show(args))
-      status, failures, result, exc = evaluate(contract, args)
+      try:
+        status, failures, result, exc = time_limited(CASE_BUDGET_S, evaluate, contract, args)
+      except CaseTimeout:
+        status, result, exc = "ok", None, None
+        failures = [("terminates", "no result after %d s (the real code does not return)" % CASE_BUDGET_S)]
       if status == "skipped":
         out["skipped"] += 1
         continue
